@@ -12,6 +12,7 @@ import (
 
 	"github.com/btcsuite/btcd/btcutil"
 	"github.com/btcsuite/btcd/btcutil/psbt"
+	"github.com/btcsuite/btcd/chaincfg/chainhash"
 	"github.com/btcsuite/btcd/txscript"
 	"github.com/btcsuite/btcd/wire"
 	"github.com/btcsuite/btcwallet/waddrmgr"
@@ -97,6 +98,65 @@ func runWallet(r *evid.Run, dir string, cs int64) {
 			f.MinePending()
 			log = append(log, fmt.Sprintf("mine pending -> tip %d", f.Tip()))
 			r.Hit("blocks-mined", 1)
+			continue
+		}
+		if rq.kind == "replace" {
+			// A conflicting version B of one of the wallet's own unconfirmed
+			// transactions A reaches the network and replaces it in the node's
+			// mempool (a fee bump made elsewhere with the same seed): B spends one of
+			// A's wallet inputs X and pays the wallet.  The wallet now knows two
+			// unconfirmed spenders of X.  When it offers A again the node refuses it,
+			// the wallet forgets A -- and X must stay unavailable: B still spends it.
+			var a *wire.MsgTx
+			var x *wh.Coin
+			for _, p := range f.Pending {
+				if c, ok := f.Coins[p.TxIn[0].PreviousOutPoint]; ok && c.Height != -1 && c.Out.Value > 20000 {
+					a, x = p, c
+				}
+			}
+			own, e := f.W.NewAddress(0, waddrmgr.KeyScopeBIP0084)
+			if a == nil || e != nil {
+				continue
+			}
+			f.Chain.Barrier()
+			opk, _ := txscript.PayToAddrScript(own)
+			b := wire.NewMsgTx(2)
+			b.AddTxIn(wire.NewTxIn(&x.Op, nil, nil))
+			b.AddTxOut(wire.NewTxOut(x.Out.Value-1500, opk))
+			// the node drops A and everything built on it, then relays B
+			gone := map[chainhash.Hash]bool{a.TxHash(): true}
+			for changed := true; changed; {
+				changed = false
+				for _, p := range f.Pending {
+					if gone[p.TxHash()] {
+						continue
+					}
+					for _, in := range p.TxIn {
+						if gone[in.PreviousOutPoint.Hash] {
+							gone[p.TxHash()] = true
+							changed = true
+						}
+					}
+				}
+			}
+			for h := range gone {
+				f.Chain.Evict(h)
+			}
+			f.Chain.NotifyTx(b, time.Unix(1700000000, 0))
+			f.Chain.Barrier()
+			// the wallet re-offers; the node refuses A (its input is spent by B)
+			f.W.VerifResendUnminedTxs()
+			f.Chain.Barrier()
+			for _, p := range append([]*wire.MsgTx{}, f.Pending...) {
+				if gone[p.TxHash()] {
+					f.Forget(p)
+				}
+			}
+			x.SpentBy = "unconf" // by B
+			bop := wire.OutPoint{Hash: b.TxHash(), Index: 0}
+			f.Coins[bop] = &wh.Coin{Op: bop, Out: b.TxOut[0], Scope: waddrmgr.KeyScopeBIP0084, Acct: 0, Height: -1}
+			log = append(log, fmt.Sprintf("replacement: %s (and %d descendants) replaced in the mempool by %s, which spends %v; wallet re-offered and was refused", a.TxHash().String()[:8], len(gone)-1, b.TxHash().String()[:8], x.Op))
+			r.Hit("own-transactions-replaced-by-a-conflicting-spend", 1)
 			continue
 		}
 		if rq.kind == "rebroadcast" {
@@ -295,6 +355,9 @@ func genReq(rg *rand.Rand, f *wh.Funded) req {
 	if rg.Intn(14) == 0 {
 		return req{kind: "rebroadcast"}
 	}
+	if len(f.Pending) > 0 && rg.Intn(12) == 0 {
+		return req{kind: "replace"}
+	}
 	if rg.Intn(3) != 0 {
 		s := wh.FundScopes[rg.Intn(4)]
 		q.scope = &s
@@ -387,7 +450,7 @@ func min(a, b int) int {
 
 func main() {
 	r := evid.New(P, "exploration")
-	r.Rule("complete wallets funded over the fake backend on all four address types and two accounts via confirmed, unconfirmed, coinbase (immature by 0..many blocks) and reorged-out receipts, with random LockOutpoint / LeaseOutput; then 30..120 requests per wallet mixing CreateSimpleTx (dry run and real), SendOutputs, SendOutputsWithInput with eligible picks and with a deliberately INELIGIBLE pick of each kind (wrong account, wrong scope, already spent, locked, leased, too few confirmations, immature coinbase), FundPsbt without inputs, both strategies, minconf 0..3 and (1 in 4) coinbase maturity + 0..4, three fee rates, amounts random or placed so that the k largest eligible coins cover amount + first fee guess but not the real fee (forces re-selection), interleaved with mining of the published transactions and with rebroadcast passes of the still-unconfirmed ones (backend answers 'already in mempool'). Oracle = harness ledger of everything it delivered and everything the wallet published: every input must be eligible for that request at that moment, no input twice, requested output present, explicit selections respected / ineligible ones refused, dry runs leave the money state unchanged, every input of a signed result executes in a fresh txscript engine with StandardVerifyFlags against prevouts from the ledger. Final concurrent phase: 8 goroutines x 3 sends; the published transactions must not share an input. Non-trivial = wallet that produced at least one transaction; distinct = distinct wallets.")
+	r.Rule("complete wallets funded over the fake backend on all four address types and two accounts via confirmed, unconfirmed, coinbase (immature by 0..many blocks) and reorged-out receipts, with random LockOutpoint / LeaseOutput; then 30..120 requests per wallet mixing CreateSimpleTx (dry run and real), SendOutputs, SendOutputsWithInput with eligible picks and with a deliberately INELIGIBLE pick of each kind (wrong account, wrong scope, already spent, locked, leased, too few confirmations, immature coinbase), FundPsbt without inputs, both strategies, minconf 0..3 and (1 in 4) coinbase maturity + 0..4, three fee rates, amounts random or placed so that the k largest eligible coins cover amount + first fee guess but not the real fee (forces re-selection), interleaved with mining of the published transactions and with rebroadcast passes of the still-unconfirmed ones (backend answers 'already in mempool'), and with REPLACEMENTS: a conflicting version of one of the wallet's unconfirmed transactions (spending one of its inputs, paying the wallet) replaces it in the node's mempool, the wallet re-offers the original and is refused; the shared input must stay unavailable. Oracle = harness ledger of everything it delivered and everything the wallet published: every input must be eligible for that request at that moment, no input twice, requested output present, explicit selections respected / ineligible ones refused, dry runs leave the money state unchanged, every input of a signed result executes in a fresh txscript engine with StandardVerifyFlags against prevouts from the ledger. Final concurrent phase: 8 goroutines x 3 sends; the published transactions must not share an input. Non-trivial = wallet that produced at least one transaction; distinct = distinct wallets.")
 	r.Trusted("txscript.Engine (StandardVerifyFlags)", "waddrmgr.AddrAccount to classify change outputs", "internal/fakechain")
 	r.Assume("FundPsbt with caller-supplied inputs is the documented external-coin-selection path and is not asserted here", "coin eligibility uses the backend tip as the current height, as the wallet does")
 	dir, _ := os.MkdirTemp("", "c06")
